@@ -13,8 +13,9 @@ import dtls_common as dc
 import vlib
 
 PID = "C11"
-ALL_KINDS = ["drop", "dup", "hold1", "hold2", "split2", "split3", "splitov"]
-FRAG_KINDS = ["split2", "split3", "splitov", "dup", "hold1", "drop"]
+REPACK = ["merge2", "merge3", "merge4", "coal2", "coal4"]
+ALL_KINDS = ["drop", "dup", "hold1", "hold2", "split2", "split3", "splitov"] + REPACK
+FRAG_KINDS = ["split2", "split3", "splitov", "dup", "hold1", "drop", "merge2", "merge4"]
 INV = ["KeyAgree", "AppReadable"]
 
 # Trace rules whose violation contradicts C11 itself (agreement on keys, Connected only after a verified
